@@ -59,6 +59,45 @@ def run(ck, fb, fbd):
     entity_iterators(ck, fb)
     circulators(ck, fb)
     ranges(ck, fb)
+    collectors(ck, fb)
+
+
+# audited exceptions of C05.collect: (class, nesting depth of the loop) -> reason
+COLLECT_EXCEPTIONS = {
+    ("OpenVolumeMesh::HalfFaceSheetHalfFaceIter", 3): "the innermost loop only looks for ONE halfedge the candidate halfface shares with the reference: one (halfface, common edge) pair is recorded per halfface by design",
+}
+
+
+def collectors(ck, fb):
+    """circulators that build their element list in the constructor must look at every candidate"""
+    ck.rule("C05.collect", "a circulator constructor that collects its elements (push_back/insert into a member list) leaves none of its loops early: no break / return inside a collecting loop (one audited exception: HalfFaceSheetHalfFaceIter's innermost common-halfedge search)")
+    n = nl = 0
+    seen = set()
+    for f in fb.repo_fns():
+        if not f.has_cfg or f.kind != "ctor" or "Iter" not in (f.cls or "") or f.where in seen:
+            continue
+        if "Iterators" not in f.file:
+            continue
+        pushes = [(b, x) for b, i, x in f.nodes(("call",)) if x.get("pn", "").split("::")[-1] in ("push_back", "insert", "emplace_back") and b in f.reach()]
+        if not pushes:
+            continue
+        seen.add(f.where)
+        n += 1
+        for hdr, body, backs in f.loops():
+            if not any(b in body for b, x in pushes):
+                continue
+            nl += 1
+            early = sorted({bb for bb in body if bb != hdr and any(s_ is not None and s_ not in body for s_ in f.succ(bb))})
+            t = f.term(hdr)
+            cond = estr(f.resolve(t["cond"])) if t and t.get("cond") else ""
+            depth = sum(1 for h2, b2, k2 in f.loops() if hdr in b2)
+            exc = [why for (cls, dep), why in COLLECT_EXCEPTIONS.items() if cls == f.cls and dep == depth]
+            if early and exc:
+                ck.ok("C05.collect", f.loc(t) if t else f.where, "%s: early exit of the loop (%s) is the audited exception: %s" % (f.cls.split("::")[-1], cond[:40], exc[0]))
+                continue
+            (ck.ok if not early else lambda r, w, t_: ck.violate(r, w, t_, "C05.collect:%s" % f.cls))("C05.collect", f.loc(t) if t else f.where, "%s constructor: the collecting loop (%s) runs to its end%s" % (f.cls.split("::")[-1], cond[:50], "" if not early else " - left early from block(s) %s" % early))
+    ck.floor("collecting_constructors", n, 12)
+    ck.floor("collecting_loops", nl, 20)
 
 
 # ------------------------------------------------------------------------------------------ entity iterators
